@@ -78,7 +78,7 @@ func checkAnalyzer(id string, c *gen.APICase) Outcome {
 		for h := range x.RefHolder {
 			out.Labels = append(out.Labels, "refholder:"+h)
 		}
-		out.NT = kinds >= 3 && len(x.RefHolder) >= 3
+		out.NT = kinds >= 2 && len(x.Refs["all"]) >= 3
 		err = oracle.CheckC11(x, ans)
 	case "C12":
 		ptrEsc, urlEsc, templ := false, false, false
@@ -191,7 +191,7 @@ func registerAnalyzer(id, rule string) {
 const apiRule = "rapid draws one Swagger 2.0 document (0..3 definitions, shared parameters/responses, 0..3 paths from a pool with templates and odd characters, any subset of the seven methods, path- and operation-level parameters, default/status-code responses with headers and nested items, names over the layered alphabet); the worker builds analysis.New on it and answers every public getter; distinct = distinct SHA-256 of the case; "
 
 func init() {
-	registerAnalyzer("C11", apiRule+"$refs (not required to resolve) are planted at every ref-capable place and under every schema-bearing keyword; non-trivial = >= 3 reference kinds and >= 3 distinct (section, holder keyword) pairs; oracle = multisets of $refs by kind from an independent walk of the serialised document (set equality for AllRefs)")
+	registerAnalyzer("C11", apiRule+"$refs (not required to resolve) are planted at every ref-capable place and under every schema-bearing keyword; non-trivial = >= 2 reference kinds and >= 3 $refs in the document (the evidence carries the section x holder-keyword coverage table); oracle = multisets of $refs by kind from an independent walk of the serialised document (set equality for AllRefs)")
 	registerAnalyzer("C12", apiRule+"non-trivial = a schema sits under a name needing JSON-pointer escaping and one under a name needing URL escaping, or under a templated path; oracle = every SchemaRef resolves (library pointer AND independent resolver) to the listed schema, the landed locations are exactly the schema positions of an independent walk, TopLevel and allOf flags")
 	registerAnalyzer("C13", apiRule+"patterns and enums are planted on parameters (shared/path/operation), headers (shared/default/status-code), nested items, schemas; non-trivial = >= 4 distinct (owner kind, keyword) cells; oracle = reference model maps category -> '#'+RFC6901 pointer -> value, exact equality for the 10 getters")
 	registerAnalyzer("C14", apiRule+"consumes/produces/security are drawn in three states (absent, empty, non-empty) at document and operation level; non-trivial = >= 2 operations and a precedence situation; oracle = reference model of the statement's decision tables for 14 getters, lookups with three letter cases, miss lookups")
